@@ -12,7 +12,7 @@ from ..relang import equal, subset
 from ..resolver_lang import resolver_model, T, BOOL_WORDS, REF
 
 META = {
-    'claim_added': 'Also decided: a typed load accepts a scalar for float exactly on the float tag (R01.5); yatiml overrides resolve/construct_* at most by pure delegation. Round 3: recognition does not retag keys or values (R09.8); yatiml registers constructors for its own \'!\' tags only, the core tags keep PyYAML\'s (R04.3).',
+    'claim_added': 'Also decided: a typed load accepts a scalar for float exactly on the float tag (R01.5); yatiml overrides resolve/construct_* at most by pure delegation. Round 3: recognition does not retag keys or values (R09.8); yatiml registers constructors for its own \'!\' tags only, the core tags keep PyYAML\'s (R04.3). Round 6 (E14): caches on the code this property is about are invisible - no value that lives in a memo cell (dict / lazily filled attribute / lru_cache) is modified by the code it is handed to, the key of a cell contains every input its value depends on, no mutable parameter default is modified or handed out; given that, the program is analysed as if every lookup missed.',
     'level': 'proof',
     'technique': 'static: partial evaluation of the resolver-patch methods over PyYAML\'s constant tables + regex->DFA '
                  'language equality/inclusion with shortest counter-example',
